@@ -69,9 +69,10 @@ class _RedisConsumer(ConsumerT):
             await asyncio.wait({self.consume_task})
         to_reject: dict[str, RoutingKeyT] = {}
         if self._last_consumed is not None:
-            # the caller of `consume` could have been cancelled before it has received the message
-            # (rejecting a message which is settled already does nothing)
-            to_reject[self._last_consumed.id_] = self._last_consumed
+            # the caller of `consume` could have been cancelled before it has received the message:
+            # give the message back, if it is still marked as being processed
+            if await self.conn.hget(mnc(self._last_consumed), "_reject_to") is not None:
+                to_reject[self._last_consumed.id_] = self._last_consumed
             self._last_consumed = None
         if self._in_hand is not None:
             to_reject[self._in_hand[0].id_] = self._in_hand[0]
